@@ -150,6 +150,7 @@ theorem loop_eq_msIter (hm : 0 < m) (hB : B = 10 * m) (hthr : thr < m) :
       cases msIter rd m 10 st (xs.take (10 * m)) with
       | ok r1 =>
         simp only [Res.bind]
+        have hge : 1 * m ≤ (K - 10) * m := Nat.mul_le_mul_right m (by omega)
         rw [if_pos ⟨by rw [hdl]; omega, by omega⟩]
         rw [ih (K - 10) r1.1 (xs.drop (10 * m)) (by omega) hdl]
       | err e => rfl
